@@ -835,7 +835,19 @@ func (h *harness) judgeModel(m *model) (v verdict) {
 				return fail("attempt-after-ready", "Connect on %s at t=%v was logged AFTER pick_first had processed the READY of %v (shut the others down / reported): a cancelled attempt timer still acted", a, e.At.Sub(h.start), m.selected.sc)
 			}
 			var want expConn
+			inSet := -1
+			for i, x := range set {
+				if x.addr == a {
+					inSet = i
+				}
+			}
 			switch {
+			case len(ord) > 0 && ord[0].addr != a && inSet >= 0:
+				// an unordered expectation (re-connect of an IDLE subchannel when a pass
+				// ended) may precede the ordered attempts of a pass that a later event
+				// of the same instant started
+				want = set[inSet]
+				set = append(set[:inSet], set[inSet+1:]...)
 			case len(ord) > 0:
 				want, ord = ord[0], ord[1:]
 				if want.addr != a {
